@@ -9,6 +9,7 @@ claimed={
  "C01":("DESIGN.md section 5 C01","symbolic execution of ParseExecutable+ResolveExecutable over a bounded request-shape grammar (E) with symbolic aliases, leaf values, null-ness and operation names (S); oracle = independent reference executor compared by one solver term (DeepEqual); native replay"),
  "C06":("DESIGN.md section 5 C06","symbolic execution of the resolver with every single resolver invocation made to fail in turn (E failAt over the reference walk), error path and partial data compared with a harness-computed expectation; z3 decides alias collisions and leaf values"),
  "C07":("DESIGN.md section 5 C07","symbolic execution of Resolve* and the JSON writer: envelope predicate over all byte strings up to N bytes and invalid-request families, reference JSON reader over the serialised text, error locations over symbolic separator layouts"),
+ "C08":("DESIGN.md section 5 C08","symbolic execution of resolve (*Union, *Interface), implementer, metaCheck, assureType, resolveReflect, resolveInline/resolveFragRef/fragApplies and the __typename branch over the family {container field kind} x {fragment condition A/B/I/U/unrelated/none, inline or named} x {concrete type of every list element} x {binding by name, RegisterType, @go, registered Resolver nodes} x {cold, warm root}, leaf values symbolic; oracle = the harness's own type hierarchy; reflect is modelled over go/types"),
  "C09":("DESIGN.md section 5 C09","symbolic execution of skipSel/resolveSels over all arrangements (E) of @skip/@include forms with symbolic truth values (S); inclusion formula decided by z3"),
  "C10":("DESIGN.md section 5 C10","symbolic execution of request validation/resolution with one undefined thing injected (E case) whose name is symbolic bytes (S); message containment and resolver-call log decided by z3"),
  "C11":("DESIGN.md section 5 C11","symbolic execution of repeated ResolveExecutable on one parsed executable (E histories, S variable values) compared call by call with fresh parses"),
